@@ -11,7 +11,7 @@
 From AS Require Import Base Effects.
 From AS.Spec Require Import Terminal.
 From AS.Model Require Import Sgr Tokenizer Table Ops Render Parse.
-From AS.Proofs Require Import TokenizerProofs ParseBasics RemoveProofs ApplyProofs ParseProofs.
+From AS.Proofs Require Import TokenizerProofs ParseBasics RemoveProofs ApplyProofs ParseProofs ParsePosition.
 
 (* base_str is the input with exactly the accepted sequences removed; by C19 (tokenize_wf) every
    accepted sequence is ESC [ body m with a body free of final bytes, and re-inserting them restores
@@ -47,6 +47,31 @@ Theorem C02_style : forall w nid,
 Proof. exact parse_style. Qed.
 Print Assumptions C02_style.
 
+(* THE POSITION CLAUSE, without only_sgr: control sequences that are not accepted (another final byte than m, or
+   unterminated at the end) stay in the text as characters, and EVERY character of the text, theirs included,
+   reports the style reached by the accepted sequences in front of it, in order.  tk_run is the specification
+   terminal run over the token list (a character token is displayed with the current state, a sequence token
+   moves the state); with only_sgr it is the terminal run on the raw input (term_tok_bridge'), which gives
+   C02_style.  The state a character is displayed with depends only on how many characters precede it and on
+   the sequences, not on which characters they are (C02_position_blank): a rejected sequence counts as that
+   many ordinary characters. *)
+Theorem C02_style_tokens : forall w nid,
+  let toks := tokenize false (Some [CH_m]) w in
+  numeric_toks toks = true ->
+  let s := fst (parse w nid) in
+  let disp := fst (tk_run tdefault toks) in
+  map fst disp = base s
+  /\ forall i c ti, nth_error disp i = Some (c, ti) ->
+       teq ti (style_of (map stxt (active_at (tbl s) i))).
+Proof. exact parse_style_tokens. Qed.
+Print Assumptions C02_style_tokens.
+
+Theorem C02_position_blank : forall c0 l t,
+  map snd (fst (tk_run t (map (blank c0) l))) = map snd (fst (tk_run t l))
+  /\ snd (tk_run t (map (blank c0) l)) = snd (tk_run t l).
+Proof. exact tk_run_blank. Qed.
+Print Assumptions C02_position_blank.
+
 (* one sequence moves the effect dictionary exactly as it moves the terminal state *)
 Theorem C02_sequence : forall s cur key body nid p, params_of body = Some p -> AS.Proofs.SgrProofs.nodupk cur ->
   let new := snd (fst (parse_step s cur key body nid)) in
@@ -66,3 +91,4 @@ Example C02_example_hyps := ParseExamples.hyps_ok.
 Example C02_example_agree := ParseExamples.agree_ok.
 Example C02_needs_numeric := ParseExamples.non_numeric_differs.
 Example C02_needs_only_sgr := ParseExamples.not_only_sgr_differs.
+Example C02_rejected_counts_as_text := PositionExamples.rejected_counts_as_text.
